@@ -51,7 +51,7 @@ func (p *Prog) dispatchTable(fn *ssa.Function) (map[string]map[string]*dispEntry
 			}))
 			var entry *dispEntry
 			unhandled := false
-			for b := range reach {
+			for _, b := range orderedBlocks(fn, reach) {
 				ret := retOf(b)
 				if ret == nil {
 					continue
@@ -217,7 +217,7 @@ func ruleDispatch(p *Prog, r *Result) {
 			}))
 			bad := ""
 			n := 0
-			for b := range reach {
+			for _, b := range orderedBlocks(fn, reach) {
 				ret := retOf(b)
 				if ret == nil || !isNilConst(retVal(ret, len(ret.Results)-1)) {
 					continue // error returns
